@@ -3,6 +3,7 @@ package props
 import (
 	"fmt"
 	"go/ast"
+	"go/constant"
 	"go/token"
 	"go/types"
 	"sort"
@@ -104,7 +105,7 @@ func buildEmit(p *core.Prog, h *handlerInfo, san *ssa.Function, gram emit.Gramma
 			switch {
 			case strings.HasPrefix(class, "table:"), class == "closed:time":
 				return emit.TokStr
-			case class == "closed:number":
+			case class == "closed:number", class == "closed:float":
 				return emit.TokNum
 			case class == "json-value":
 				return emit.TokValue
@@ -140,7 +141,7 @@ func buildEmit(p *core.Prog, h *handlerInfo, san *ssa.Function, gram emit.Gramma
 			switch {
 			case strings.HasPrefix(class, "table:"), class == "closed:time", class == "closed:duration":
 				return emit.TokBare
-			case class == "closed:number":
+			case class == "closed:number", class == "closed:float":
 				return emit.TokNum
 			case class == "quoted":
 				return emit.TokAtom
@@ -274,6 +275,21 @@ func emitCommon(p *core.Prog, r *core.Report, h *handlerInfo, san *ssa.Function,
 	}
 	for _, pr := range it.Problems {
 		note(pr.Fn, pr.Msg+" at "+pr.Pos)
+	}
+	// soundness guard: every append to the line that the SSA-level sink analysis found must have been executed
+	// abstractly by the interpreter (an append through an alias of the buffer would otherwise be skipped silently)
+	sinks, _ := classifySinks(p, h, san)
+	for _, s := range sinks {
+		if s.Fn == san || s.Class == "sanitizer-internal" {
+			continue
+		}
+		if !it.Visited[s.In.Pos()] {
+			// colour-only branches are not explored (the colour flag is fixed to false)
+			if s.ColourOnly {
+				continue
+			}
+			r.Unknown(rule, h.Name+": append site not interpreted", p.Pos(s.In.Pos()), "an append to the line in "+fnName(s.Fn)+" was found by the sink analysis but never reached by the grammar interpreter (buffer alias, unreachable under the tracked predicates, or a construct outside the fragment)")
+		}
 	}
 	var und []string
 	for _, u := range it.Undecided {
@@ -418,4 +434,123 @@ func emitJSON(p *core.Prog, r *core.Report, h *handlerInfo, san *ssa.Function) {
 
 func emitText(p *core.Prog, r *core.Report, h *handlerInfo, san *ssa.Function) {
 	emitCommon(p, r, h, san, emit.Text{}, "C13-R1", emit.TLineStart, emit.TEnd)
+	emitPrefixPath(p, r, h)
+}
+
+// emitPrefixPath runs the same interpreter over the *key-prefix scratch buffer* of the text emitters with the
+// dotted-path grammar: a '.' is never appended to a prefix that already ends with '.', i.e. no empty group segment
+// ("http..method") can be produced for any attribute tree.
+func emitPrefixPath(p *core.Prog, r *core.Report, h *handlerInfo) {
+	pk := p.Pkgs["logger"]
+	decls := map[*types.Func]*ast.FuncDecl{}
+	for _, f := range pk.Syntax {
+		for _, d := range f.Decls {
+			if fd, ok := d.(*ast.FuncDecl); ok && fd.Body != nil {
+				if obj, ok := pk.TypesInfo.Defs[fd.Name].(*types.Func); ok {
+					decls[obj] = fd
+				}
+			}
+		}
+	}
+	// emitters with two *[]byte parameters: the second is the key-prefix scratch buffer
+	bufParam := map[*types.Func]int{}
+	_, bufs := classifySinks(p, h, nil)
+	for fn, vals := range bufs {
+		if fn.Parent() != nil {
+			continue
+		}
+		line := -1
+		for i, prm := range fn.Params {
+			if vals[prm] {
+				line = i
+			}
+		}
+		for i, prm := range fn.Params {
+			if i != line && line >= 0 && ptrTo(prm.Type()) != nil && ptrTo(prm.Type()).String() == "[]byte" {
+				bufParam[funcObj(fn)] = i
+			}
+		}
+	}
+	if len(bufParam) == 0 {
+		r.Note("C13-R1: no emitter with a separate key-prefix buffer found; dotted-path rule not applicable")
+		return
+	}
+	// classify appends to the prefix from the syntax: all-constant arguments → const bytes, otherwise a key
+	classAt := map[token.Pos]emit.SinkClass{}
+	for obj, idx := range bufParam {
+		fd := decls[obj]
+		if fd == nil {
+			continue
+		}
+		sig := obj.Type().(*types.Signature)
+		pi := idx
+		if sig.Recv() != nil {
+			pi = idx - 1
+		}
+		name := sig.Params().At(pi).Name()
+		ast.Inspect(fd.Body, func(n ast.Node) bool {
+			as, ok := n.(*ast.AssignStmt)
+			if !ok || len(as.Lhs) != 1 || len(as.Rhs) != 1 {
+				return true
+			}
+			star, ok := as.Lhs[0].(*ast.StarExpr)
+			if !ok {
+				return true
+			}
+			if id, ok := star.X.(*ast.Ident); !ok || id.Name != name {
+				return true
+			}
+			call, ok := as.Rhs[0].(*ast.CallExpr)
+			if !ok {
+				return true
+			}
+			if f, ok := call.Fun.(*ast.Ident); !ok || f.Name != "append" {
+				return true
+			}
+			var bs []byte
+			allConst := true
+			for _, a := range call.Args[1:] {
+				tv := pk.TypesInfo.Types[a]
+				if tv.Value == nil {
+					allConst = false
+					break
+				}
+				if tv.Value.Kind() == constant.String {
+					bs = append(bs, constant.StringVal(tv.Value)...)
+				} else if k, ok := constant.Int64Val(constant.ToInt(tv.Value)); ok {
+					bs = append(bs, byte(k))
+				}
+			}
+			if allConst {
+				classAt[call.Lparen] = emit.SinkClass{Class: "const", Bytes: bs}
+			} else {
+				classAt[call.Lparen] = emit.SinkClass{Class: "maybe-empty"}
+			}
+			return true
+		})
+	}
+	cfg := emit.Config{
+		Gram: emit.Path{}, Info: pk.TypesInfo, Fset: p.Fset, Decls: decls, BufParam: bufParam,
+		ClassAt:  func(pos token.Pos) (emit.SinkClass, bool) { c, ok := classAt[pos]; return c, ok },
+		TokenOf:  func(string) string { return emit.TokKey },
+		IsColour: func(ast.Expr) bool { return false },
+		Resolve:  func(bool) int { return emit.PBase },
+		Pre:      func(g emit.G, s *bool) ([]emit.G, []bool, error) { return []emit.G{g}, []bool{true}, nil },
+		Pos:      p.Pos,
+	}
+	it := emit.New(cfg)
+	var names []string
+	for obj := range bufParam {
+		it.SummaryOf(obj, emit.PBase, map[string]bool{})
+		names = append(names, obj.Name())
+	}
+	sort.Strings(names)
+	var msgs []string
+	for _, pr := range it.Problems {
+		msgs = append(msgs, pr.Msg+" in "+pr.Fn+" at "+pr.Pos)
+	}
+	for _, u := range it.Undecided {
+		r.Unknown("C13-R1", h.Name+": key-prefix construct outside the interpreter's fragment", "-", u.Fn+": "+u.Msg+" at "+u.Pos)
+	}
+	r.Check(len(msgs) == 0, "C13-R1", h.Name+": the dotted group path never gets an empty segment ("+strings.Join(names, ", ")+")", "-", fmt.Sprintf("no '.' is ever appended after a '.' (%d entry-state summaries over the key-prefix buffer)", len(it.Summaries)), strings.Join(uniq(msgs), "; "))
 }
